@@ -371,6 +371,30 @@ fn c04_enumerated(seed: u64) -> Vec<Value> {
     v
 }
 
+/// Honest runs must also complete when the customer's entropy source returns a zero block at
+/// any single draw — except where that makes the customer's own message degenerate (a zero
+/// re-randomiser turns a shown signature into the identity, which the merchant rightly refuses).
+fn c04_entropy_sweep(seed: u64, tier: Tier) -> Vec<Value> {
+    let mut v = Vec::new();
+    let n_start = if tier == Tier::Quick { 96 } else { 96 };
+    for (op, n) in [("new", 12usize), ("start", n_start)] {
+        for at in 0..n {
+            let plan = Plan {
+                seed: mix(&[seed, 0xC04E, at as u64, crate::hash_str(op)]),
+                merchants: vec!["9001".into()],
+                channels: vec![ChanPlan { merchant: 0, cust_bal: 75, merch_bal: 5, est_cs_faults: vec![], est_pt_faults: vec![], payments: vec![PayPlan { amount: if at % 2 == 0 { 4 } else { -2 }, cs_faults: vec![], lock_faults: vec![], pt_faults: vec![] }], stop_at: 1, stop_stage: "ready".into() }],
+                order: vec![0],
+                wire: true,
+                crash: "none".into(),
+                crash_steps: vec![],
+                entropy: vec![EntropyPlan { chan: 0, pay: if op == "new" { -1 } else { 0 }, op: op.into(), at, width: 1, kind: "zeros".into() }],
+            };
+            v.push(case_of(&plan, json!({})));
+        }
+    }
+    v
+}
+
 impl Prop for C04 {
     fn id(&self) -> &'static str {
         "C04"
@@ -379,8 +403,10 @@ impl Prop for C04 {
         "exploration"
     }
     fn cases(&self, tier: Tier, seed: u64) -> CaseSet {
+        let mut en = c04_enumerated(seed);
+        en.extend(c04_entropy_sweep(seed, tier));
         CaseSet {
-            enumerated: c04_enumerated(seed),
+            enumerated: en,
             random: match tier {
                 Tier::Quick => 260,
                 Tier::Thorough => 30_000,
@@ -404,7 +430,23 @@ impl Prop for C04 {
         if plan_has_fault(&plan) {
             crate::harness_error("C04 runs fault-free plans only");
         }
-        let _ = run_plan(&plan, &mut o);
+        let rr = run_plan(&plan, &mut o);
+        if !plan.entropy.is_empty() {
+            // a refusal is legitimate iff the customer's own proof carries a degenerate (identity)
+            // element because of the faulty draw
+            let g1 = refc::bad::g1_identity();
+            let g2 = refc::bad::g2_identity();
+            let degenerate = rr.history.iter().any(|e| {
+                e.dir == Dir::C2M
+                    && e.trace.as_ref().map(|t| t.atoms.iter().any(|a| a.kind == AtomKind::Bytes && ((a.len == 48 && t.bytes[a.off..a.off + 48] == g1[..]) || (a.len == 96 && t.bytes[a.off..a.off + 96] == g2[..])))).unwrap_or(false)
+            });
+            if degenerate {
+                o.bump("probe.entropy_fault_made_message_degenerate");
+                o.violations.retain(|v| !["honest-payment-refused", "honest-establish-refused", "honest-reply-refused", "honest-message-rejected-by-decoder", "closing-message-refused-by-merchant", "closing-signature-not-on-ledger-state"].contains(&v.class.as_str()));
+            } else {
+                o.bump("probe.entropy_fault_run_completed");
+            }
+        }
         keep(&mut o, &C04_CLASSES);
         o.nontrivial = o.stats.get("probe.payment_completed").cloned().unwrap_or(0) > 0 || o.stats.get("probe.start_refused").cloned().unwrap_or(0) > 0;
         o
@@ -413,13 +455,13 @@ impl Prop for C04 {
         shrink_world_case(case)
     }
     fn rule(&self) -> String {
-        "one case = one fault-free plan: honest customer and merchant, every hop and stored stage through the real codecs, initial balances from the lattice {0,1,2,2^31,2^32,2^62,2^63-2,2^63-1}^2 or random, amounts drawn relative to the current ideal balances from {0,+-1,+-balance,+-(balance+1),+-(2^63-1), fill-to-max, random}, 0-6 (thorough 0-24) payments, 1-2 (3) interleaved channels; compared event by event with an i128 ledger. Enumerated part: boundary walks that reach 0 and 2^63-1 through payments. Distinct = distinct executed event/outcome sequence; non-trivial = at least one payment completed or one inadmissible payment was refused".into()
+        "(entropy-sweep cases: no network fault, but the customer's generator returns a zero block at one draw of Requested::new / Ready::start; the run must still complete unless that draw makes the customer's own message carry an identity element.) one case = one fault-free plan: honest customer and merchant, every hop and stored stage through the real codecs, initial balances from the lattice {0,1,2,2^31,2^32,2^62,2^63-2,2^63-1}^2 or random, amounts drawn relative to the current ideal balances from {0,+-1,+-balance,+-(balance+1),+-(2^63-1), fill-to-max, random}, 0-6 (thorough 0-24) payments, 1-2 (3) interleaved channels; compared event by event with an i128 ledger. Enumerated part: boundary walks that reach 0 and 2^63-1 through payments. Distinct = distinct executed event/outcome sequence; non-trivial = at least one payment completed or one inadmissible payment was refused".into()
     }
     fn assumptions(&self) -> Vec<String> {
         vec!["the i128 ledger (ten lines of integer arithmetic) is the reference".into(), "bounded liveness is in deliveries: establishment completes in 3, a payment in 4, by construction of the step list; any refusal of an honest step is a violation".into()]
     }
     fn required_probes(&self, _tier: Tier) -> Vec<&'static str> {
-        vec!["probe.payment_completed", "probe.start_refused", "probe.zero_amount_started", "probe.negative_amount_started", "probe.boundary_balance_reached", "probe.stop_at_ready"]
+        vec!["probe.payment_completed", "probe.start_refused", "probe.zero_amount_started", "probe.negative_amount_started", "probe.boundary_balance_reached", "probe.stop_at_ready", "fault.entropy.customer-zero-draw", "probe.entropy_fault_run_completed"]
     }
 }
 
